@@ -110,6 +110,11 @@ def StrItem.denote : StrItem → Option Nat
   | .hex d1 d2 => some (16 * d1.val + d2.val)
   | .uni _ ds => let v := ofDigits 16 (ds.map HexDigit.val); if isScalar v then some v else none
 
+/-- the item is a `\\xHH` escape -/
+def StrItem.isHex : StrItem → Bool
+  | .hex _ _ => true
+  | _ => false
+
 def renderBody (its : List StrItem) : List Char := its.flatMap StrItem.render
 
 /-- the string a body denotes: the scalar values its items spell (`none` if some item spells a
